@@ -69,6 +69,30 @@ def gen_symbols(write_if_changed, GEN, REPO):
                 if re.match(r"\s*static\b", pre[start:w.start()]):
                     continue
                 wstores.append((name + ".c", sym))
+    # ambient per-thread state: every function that looks at errno, with its accesses in textual order (W: assignment, R: anything else)
+    errno_uses = []
+    for name in vlib.LIB_SRCS:
+        raw = open(os.path.join(REPO, "lib", name + ".c"), encoding="latin-1").read()
+        raw = re.sub(r"/\*.*?\*/", " ", raw, flags=re.S)
+        raw = re.sub(r"(?m)^\s*#.*$", "", raw)
+        depth, start, head_from = 0, None, 0
+        for i, c in enumerate(raw):
+            if c == "{":
+                if depth == 0:
+                    start = i
+                    head = raw[head_from:i]
+                depth += 1
+            elif c == "}":
+                depth -= 1
+                if depth == 0 and start is not None:
+                    body = raw[start:i]
+                    m = re.findall(r"([A-Za-z_]\w*)\s*\([^()]*(?:\([^()]*\)[^()]*)*\)\s*$", head.strip())
+                    acc = "".join("W" if re.match(r"\s*=(?!=)", body[w.end():]) else "R" for w in re.finditer(r"(?<![\w.>])errno\b", body))
+                    if acc and m:
+                        errno_uses.append((name + ".c", m[-1], acc))
+                    head_from = i + 1
+            elif c == ";" and depth == 0:
+                head_from = i + 1
     out = ["/- GENERATED by tools/extract_more.py from the objects compiled from /repo (gcc -O2) and the",
            "   preprocessed sources — do not edit. -/", "namespace Vorbis.Generated", "",
            "/-- (object, section, symbol) of every symbol placed in a writable section -/",
@@ -82,6 +106,8 @@ def gen_symbols(write_if_changed, GEN, REPO):
            "def staticStores : List (String × String) := [" + ", ".join('("%s", "%s")' % t for t in stores) + "]", "",
            "/-- (file, symbol) for every store to a symbol of a writable section outside its initialiser -/",
            "def writableStores : List (String × String) := [" + ", ".join('("%s", "%s")' % t for t in wstores) + "]", "",
+           "/-- (file, function, accesses) for every function that mentions `errno`: its accesses in textual order, W = assignment, R = any other use -/",
+           "def errnoUses : List (String × String × String) := [" + ", ".join('("%s", "%s", "%s")' % t for t in errno_uses) + "]", "",
            "end Vorbis.Generated", ""]
     return write_if_changed(os.path.join(GEN, "Symbols.lean"), "\n".join(out))
 
